@@ -27,6 +27,7 @@ sys.path.insert(0, HERE)
 import leanside  # noqa: E402
 import drift     # noqa: E402
 import covsample  # noqa: E402
+import genside   # noqa: E402
 
 TRUSTED_BASE = [
     'Lean 4.33.0 kernel (leanchecker re-check in the thorough tier)',
@@ -34,6 +35,8 @@ TRUSTED_BASE = [
     'hand-written Lean model tied to /repo by this run\'s correspondence check (agreement on the explored inputs only)',
     'fcadriver JSON parser/printer and harness canonicalisation',
     'CPython, bitarray, numpy and other third-party semantics are modelled, not verified',
+    'harness/py2lean.py (Python->Lean translator of the functions listed in harness/gen_targets.json; its assumptions '
+    'A1-A8 are in its docstring): for those functions the Lean definition is regenerated from the current source on every run',
 ]
 
 
@@ -198,6 +201,12 @@ def run_check(prop, tier, seed, jobs, budget_s):
 
     # ---- step 0: proof obligations -------------------------------------------------------
     aud = leanside.audit(prop)
+    # source-derived definitions (py2lean): regenerate from the CURRENT source; still provably equal to the model?
+    try:
+        gen_defs = genside.check_generated(prop)
+    except Exception as e:
+        gen_defs = dict(problems=['generated-definition check failed to run: ' + repr(e)[:300]], regenerated_equal=False, targets=[])
+    aud['problems'].extend(gen_defs['problems'])
     lc = None
     if tier == 'thorough' and not aud['problems']:
         ok, txt, secs = leanside.leanchecker(prop)
@@ -350,7 +359,7 @@ def run_check(prop, tier, seed, jobs, budget_s):
                         + (' && lake env leanchecker Fca.Props.%s' % prop if tier == 'thorough' else ''),
             trusted_base=TRUSTED_BASE + list(getattr(mod, 'TRUSTED', [])),
             theorems=aud['theorems'], partial_theorems=aud['partial'], proof_problems=aud['problems'],
-            leanchecker=lc,
+            leanchecker=lc, generated_definitions=gen_defs,
             evaluations=n_eval, distinct_nontrivial=len(nontriv),
             rule=getattr(mod, 'RULE', ''), samples=samples[:6], exhaustive=bool(getattr(mod, 'EXHAUSTIVE', {}).get(tier)),
             exhaustive_scope=getattr(mod, 'EXHAUSTIVE', {}).get(tier),
@@ -387,6 +396,7 @@ def run_replay(prop, path):
     payload = json.load(open(path))
     if payload.get('kind') == 'proof-obligation':
         aud = leanside.audit(prop)
+        aud['problems'].extend(genside.check_generated(prop)['problems'])
         print(json.dumps(dict(problems=aud['problems'], theorems=aud['theorems']), indent=1))
         return 1 if aud['problems'] else 0
     c, io, rep, v = eval_cases(mod, [payload['case']])[0]
